@@ -130,6 +130,11 @@ inline size_t ok_moved_into_rvalue_ref_param(std::vector<D> v) {
   all.emplace_back(std::move(v));
   return all.size();
 }
+// R-OWN.fwdmove: std::move of a forwarding reference bound to the caller's lvalue
+template <typename P>
+inline std::vector<D> ctl_fwd_move(P &&v) { return std::vector<D>(std::move(v)); }
+template <typename P>
+inline std::vector<D> ok_forwarded(P &&v) { return std::vector<D>(std::forward<P>(v)); }
 // R-OWN.borrow: shared_ptr that does not own its pointee (aliasing constructor / address of a parameter)
 struct CtlBorrow {
   std::shared_ptr<const Spline<D, 1>> _s;
@@ -175,6 +180,10 @@ inline void instantiate() {
     (void)ctl_api_param([](const D &x) { return x; }, a0);
     (void)ctl_moved_and_read(a0.getSupport());
     (void)ok_moved_into_rvalue_ref_param({1.0});
+    std::vector<D> named{1.0, 2.0};
+    (void)ctl_fwd_move(named);
+    (void)ctl_fwd_move(std::vector<D>{1.0});   // bound to an rvalue: moving is what the caller asked for
+    (void)ok_forwarded(named);
     CtlCompound cc{a0, 1.0};
     (void)cc.transform(std::array<D, 2>{}, a0.getSupport().getGrid(), 0);
   }
